@@ -30,6 +30,8 @@ def fatal_with(code):
 
 def run(ctx):
     prog = ctx.prog
+    # the codes this property names are the registry values (the rules below speak of them by name)
+    shared.error_code_values(ctx, "C04-a", ("H3_CLOSED_CRITICAL_STREAM", "H3_FRAME_UNEXPECTED", "H3_MISSING_SETTINGS", "H3_STREAM_CREATION_ERROR", "H3_ID_ERROR"))
     # ------------------------------------------------------------------ C04-a poll_control
     pc = ru.need(ctx, "C04-a", CI + "poll_control")
     if pc:
